@@ -101,7 +101,8 @@ func (w *wis) gap(tp *engine.Tape, d debounceCfg) {
 	case 3:
 		w.advance(d.max + d.after + time.Millisecond)
 	case 4:
-		w.advance(d.after - time.Microsecond)
+		// just inside the window: the next write (which ticks the clock by 1 us) lands 1 us before the timer
+		w.advance(d.after - 2*time.Microsecond)
 	}
 }
 
